@@ -67,7 +67,7 @@ def part_values(ctx):
     from mitxgraders.helpers.calc.mathfuncs import DEFAULT_FUNCTIONS
     rng = ctx.rng
     names = sorted(n for n in DEFAULT_FUNCTIONS if n not in ('fact', 'factorial', 'min', 'max', 'arctan2', 'kronecker', 're', 'im', 'conj'))
-    reals = [0.0, 0.5, -0.5, 1.0, -1.0, 2.0, -2.0, 0.25, 3.0, -3.0, 10.0, 1e-8, -1e-8, 1e-300, 1e6, 0.999999999, 1.000000001, math.pi / 2 + 1e-9, math.pi, 0.1, 7.3]
+    reals = [-1000.0, -745.5, -800.25, 1e-310, -1e-310, 5e-324, 0.0, 0.5, -0.5, 1.0, -1.0, 2.0, -2.0, 0.25, 3.0, -3.0, 10.0, 1e-8, -1e-8, 1e-300, 1e6, 0.999999999, 1.000000001, math.pi / 2 + 1e-9, math.pi, 0.1, 7.3]
     cplx = [complex(a, b) for a in (-2.0, -0.5, 0.0, 0.3, 1.0, 2.5) for b in (-1.5, -1e-12, 1e-12, 0.7, 2.0)]
     for name in names:
         pts = list(reals) + [rng.uniform(-6, 6) for _ in range(ctx.scale(6, 60))] + cplx + [complex(rng.uniform(-3, 3), rng.uniform(-3, 3)) for _ in range(ctx.scale(6, 60))]
